@@ -72,7 +72,7 @@ SRC_FILES = [("e.bin", 0), ("s.bin", 5), ("m.bin", 37), ("l.bin", 300)]
 
 
 def _off():
-    return st.one_of(st.integers(0, 40), st.integers(0, 400), st.integers(0, (1 << 20) - 100))
+    return st.one_of(st.integers(0, 12), st.integers(0, 40), st.integers(0, 40), st.integers(0, 400), st.integers(0, (1 << 20) - 100))
 
 
 def _len():
@@ -106,6 +106,7 @@ def other_op(side):
         st.tuples(st.just("idle"), drain).map(list),
         st.tuples(st.just("cancel"), st.booleans(), drain).map(list),
         st.just(["drain"]),
+        st.just(["clock"]),
     ]
     if side == "src":
         ops.append(st.tuples(st.just("put"), st.integers(0, len(SRC_FILES)), st.sampled_from([None, "ACK", "NAK"]), st.sampled_from([None, True, False])).map(list))
@@ -113,6 +114,60 @@ def other_op(side):
         ops.append(st.tuples(st.just("idle"), drain).map(list))
         ops.append(st.tuples(st.just("idle"), drain).map(list))
     return st.one_of(*ops)
+
+
+def _P(spec, mut="none", how="full"):
+    return ["pdu", spec, mut, how]
+
+
+@st.composite
+def skeleton_ops(draw, side, cfg):
+    """A plausible transfer script for one handler (so that deep steps are reached often), perturbed by
+    loss / duplication / reordering / overlapping data, followed by a tail of timer expiries, re-sent
+    PDUs and requests, with a few arbitrary operations inserted anywhere."""
+    tail_common = [["tick", "full"], ["tick", "full"], ["idle", "full"], ["clock"], ["cancel", True, "full"]]
+    if side == "dst":
+        n = draw(st.integers(0, 6))
+        seg = draw(st.sampled_from([1, 4, 5, 10]))
+        size = n * seg
+        md = _P(["md", draw(st.sampled_from([0, 0, 0, 1, 2, 3])), size, cfg["crc_type"], draw(st.booleans()), draw(st.booleans())])
+        items = [md] + [_P(["fd", i * seg, seg]) for i in range(n)] + [_P(["eof", "NO_ERROR", 0, True, size])]
+        script = []
+        for it in items:
+            act = draw(st.sampled_from(["keep", "keep", "keep", "keep", "drop", "dup", "late"]))
+            if act == "drop":
+                continue
+            script.append(it)
+            if act == "dup":
+                script.append(it)
+            if act == "late" and len(script) >= 2:
+                script[-1], script[-2] = script[-2], script[-1]
+        tail = st.one_of(
+            st.sampled_from(tail_common),
+            st.just(md),
+            st.just(_P(["eof", "NO_ERROR", 0, True, size])),
+            st.just(_P(["eof", "CANCEL_REQUEST_RECEIVED", 0, True, size])),
+            st.just(_P(["ack", "FIN", "NO_ERROR", "ACTIVE"])),
+            st.tuples(st.just("fd"), st.integers(0, max(size, 1)), st.integers(0, 12)).map(lambda t: _P(list(t))),
+            st.integers(0, max(n - 1, 0)).map(lambda i: _P(["fd", i * seg, seg])),
+        )
+        script += draw(st.lists(tail, max_size=14))
+    else:
+        script = [["put", draw(st.integers(0, len(SRC_FILES))), draw(st.sampled_from([None, "ACK", "NAK"])), draw(st.sampled_from([None, True, False]))]]
+        script += [["idle", "full"]] * draw(st.integers(0, 12))
+        tail = st.one_of(
+            st.sampled_from(tail_common + [["idle", "full"], ["idle", "full"]]),
+            st.just(_P(["ack", "EOF", "NO_ERROR", "ACTIVE"])),
+            st.just(_P(["fin", "NO_ERROR", "DATA_COMPLETE", "FILE_RETAINED"])),
+            st.just(_P(["ka", 0])),
+            st.tuples(st.integers(0, 40), st.integers(0, 40)).map(lambda t: _P(["nak", 0, 300, [[min(t), max(t)]]])),
+            st.just(_P(["nak", 0, 300, [[0, 0]]])),
+        )
+        script += draw(st.lists(tail, max_size=14))
+    for _ in range(draw(st.integers(0, 3))):
+        pos = draw(st.integers(0, len(script)))
+        script.insert(pos, draw(st.one_of(pdu_op(), other_op(side))))
+    return script
 
 
 @st.composite
@@ -131,6 +186,9 @@ def case_strategy(draw):
         "max_pkt": draw(st.sampled_from([30, 48, 100])),
         "max_seg": draw(st.sampled_from([None, 4, 16])),
     }
+    if draw(st.booleans()):
+        ops = draw(skeleton_ops(side, cfg))
+        return {"side": side, "cfg": cfg, "modes": draw(st.lists(st.sampled_from(["ACK", "ACK", "NAK"]), min_size=1, max_size=2)), "ops": ops}
     ops = draw(st.lists(st.one_of(pdu_op(), pdu_op(), other_op(side)), min_size=1, max_size=45))
     if side == "src" and draw(st.booleans()):
         ops = [["put", draw(st.integers(0, len(SRC_FILES))), None, None]] + ops
@@ -173,8 +231,8 @@ def _build_pdu(c, spec, mut):
         c.next_off = off + ln
         p = FileDataPdu(conf, FileDataParams(bytes((off + i) & 0xFF for i in range(ln)), off))
     elif k == "eof":
-        _, cond, delta, right = spec
-        size = max(0, c.next_off + delta)
+        cond, delta, right = spec[1], spec[2], spec[3]
+        size = max(0, c.next_off + delta) if len(spec) < 5 else spec[4]
         p = EofPdu(conf, b"\x00\x00\x00\x00" if right else b"\x12\x34\x56\x78", size, condition_code=ConditionCode[cond])
     elif k == "ack":
         _, what, cond, status = spec
@@ -297,6 +355,9 @@ def evaluate(case):
                     vs.append(verdict("api-contract", f"C10/cancel-returned/{r!r}", ""))
             elif kind == "drain":
                 pass
+            elif kind == "clock":
+                how = "none"
+                rig.tick()  # the clock passes the next expiry; the next call (with or without a PDU) notices it
             elif kind == "put":
                 _, fi, mode, closure = op
                 dst = UnsignedByteField(cfg["dst_id"][1], cfg["dst_id"][0])
